@@ -5,6 +5,7 @@
 package main
 
 import (
+	"encoding/base64"
 	"encoding/json"
 	"fmt"
 	"os"
@@ -14,10 +15,12 @@ import (
 	"time"
 
 	"github.com/milvus-io/milvus-proto/go-api/v2/commonpb"
+	"github.com/milvus-io/milvus-proto/go-api/v2/milvuspb"
 	"github.com/milvus-io/milvus-proto/go-api/v2/msgpb"
 	"github.com/milvus-io/milvus-proto/go-api/v2/schemapb"
 	"github.com/milvus-io/milvus/pkg/mq/msgstream"
 	"github.com/sasha-s/go-deadlock"
+	"google.golang.org/protobuf/proto"
 
 	"github.com/zilliztech/milvus-cdc/core/reader"
 	"github.com/zilliztech/milvus-cdc/core/util"
@@ -29,7 +32,10 @@ import (
 	"verifharness/hx"
 	"verifharness/pfake"
 	"verifharness/srvpipe"
+	"verifharness/wfake2"
 )
+
+const replicateChan = "by-dev-replicate-msg"
 
 var planSeq int64
 
@@ -70,6 +76,8 @@ type env struct {
 	maxc    int
 	logical int
 	bad     string
+	ops     []map[string]interface{} // script of the source's replicate channel (operation packs)
+	opcur   map[string]int           // per task: next op index of the current registration
 }
 
 func newEnv(p *hx.Plan) *env {
@@ -99,6 +107,8 @@ func newEnv(p *hx.Plan) *env {
 		}
 	}
 	e.tasks = hx.ML(p.Params, "tasks")
+	e.ops = hx.ML(p.Params, "ops")
+	e.opcur = map[string]int{}
 	e.logical = hx.I(p.Params, "logical")
 	e.maxc = hx.I(p.Params, "maxcount")
 	if e.maxc == 0 {
@@ -123,6 +133,21 @@ func (e *env) seed() {
 		req := e.w.CreateReq(hx.S(t, "id"), colls[0])
 		info := &meta.TaskInfo{TaskID: req.TaskID, MilvusConnectParam: req.MilvusConnectParam, CollectionInfos: []srvmodel.CollectionInfo{{Name: hx.S(t, "coll")}},
 			State: meta.TaskStateRunning}
+		if dbc, ok := t["dbcolls"].(map[string]interface{}); ok { // the request's db_collections form
+			info.CollectionInfos = nil
+			info.DBCollections = map[string][]srvmodel.CollectionInfo{}
+			for db, l := range dbc {
+				for _, n := range l.([]interface{}) {
+					info.DBCollections[db] = append(info.DBCollections[db], srvmodel.CollectionInfo{Name: n.(string)})
+				}
+			}
+			info.ExcludeCollections = hx.SL(t, "exclude")
+		}
+		info.ExtraInfo.EnableUserRole = hx.B(t, "userrole")
+		if hx.B(t, "reqpos") { // created with an explicit position of the replicate channel
+			b, _ := proto.Marshal(&msgpb.MsgPosition{ChannelName: replicateChan, MsgID: []byte("init-op"), Timestamp: srvpipe.TS(0)})
+			info.RPCRequestChannelInfo = srvmodel.ChannelInfo{Position: base64.StdEncoding.EncodeToString(b)}
+		}
 		for _, c := range colls {
 			positions := map[string]*meta.PositionInfo{}
 			for _, v := range c.SrcV {
@@ -172,6 +197,56 @@ func (e *env) buildPack(v string, pk map[string]interface{}) *msgstream.MsgPack 
 	return pack
 }
 
+// buildOp builds the one-message pack the source writes to its replicate channel for operation o.
+func (e *env) buildOp(vch string, o map[string]interface{}) *msgstream.MsgPack {
+	id, kind, db, coll := hx.S(o, "id"), hx.S(o, "kind"), hx.S(o, "db"), hx.S(o, "coll")
+	ts := srvpipe.TS(hx.I(o, "ts"))
+	base := func(t commonpb.MsgType) *commonpb.MsgBase { return &commonpb.MsgBase{MsgType: t, Timestamp: ts, SourceID: 7} }
+	var req proto.Message
+	switch kind {
+	case "createindex":
+		req = &milvuspb.CreateIndexRequest{Base: base(commonpb.MsgType_CreateIndex), DbName: db, CollectionName: coll, FieldName: "vec", IndexName: "idx_" + id}
+	case "dropindex":
+		req = &milvuspb.DropIndexRequest{Base: base(commonpb.MsgType_DropIndex), DbName: db, CollectionName: coll, IndexName: "idx_" + id}
+	case "loadcollection":
+		req = &milvuspb.LoadCollectionRequest{Base: base(commonpb.MsgType_LoadCollection), DbName: db, CollectionName: coll, ReplicaNumber: 1}
+	case "releasecollection":
+		req = &milvuspb.ReleaseCollectionRequest{Base: base(commonpb.MsgType_ReleaseCollection), DbName: db, CollectionName: coll}
+	case "flush":
+		req = &milvuspb.FlushRequest{Base: base(commonpb.MsgType_Flush), DbName: db, CollectionNames: []string{coll}}
+	case "createdatabase":
+		req = &milvuspb.CreateDatabaseRequest{Base: base(commonpb.MsgType_CreateDatabase), DbName: db}
+	case "createuser":
+		req = &milvuspb.CreateCredentialRequest{Base: base(commonpb.MsgType_CreateCredential), Username: coll, Password: "cHc="}
+	case "createrole":
+		req = &milvuspb.CreateRoleRequest{Base: base(commonpb.MsgType_CreateRole), Entity: &milvuspb.RoleEntity{Name: coll}}
+	default:
+		panic("driver: unknown op kind " + kind)
+	}
+	b, err := proto.Marshal(req)
+	if err != nil {
+		panic(err)
+	}
+	m, err := wfake2.Decode(b)
+	if err != nil {
+		panic(fmt.Sprintf("driver: cannot decode own message: %v", err))
+	}
+	m.SetTs(ts)
+	m.SetPosition(&msgpb.MsgPosition{ChannelName: vch, MsgID: []byte(id), Timestamp: ts})
+	return &msgstream.MsgPack{BeginTs: ts, EndTs: ts, Msgs: []msgstream.TsMsg{m},
+		StartPositions: []*msgstream.MsgPosition{{ChannelName: vch, MsgID: []byte(id), Timestamp: ts}},
+		EndPositions:   []*msgstream.MsgPosition{{ChannelName: vch, MsgID: []byte(id), Timestamp: ts}}}
+}
+
+func (e *env) opIndex(id string) int {
+	for i, o := range e.ops {
+		if hx.S(o, "id") == id {
+			return i
+		}
+	}
+	return -1
+}
+
 func (e *env) collOf(v string) *srvpipe.Coll {
 	for _, c := range e.w.Colls {
 		for _, x := range c.SrcV {
@@ -194,7 +269,7 @@ func (e *env) indexOf(v, id string) int {
 
 // settle waits for quiescence, applies register events to the read cursors and collects the logs.
 func (e *env) settle(ev hx.Event) {
-	var logs, regs []hx.Event
+	var logs, regs, oregs []hx.Event
 	for round := 0; round < 20; round++ {
 		if err := pfake.WaitQuiescent(10 * time.Second); err != nil {
 			e.bad = err.Error()
@@ -219,10 +294,35 @@ func (e *env) settle(ev hx.Event) {
 				}
 			}
 		}
+		if e.inc != nil {
+			for _, r := range e.inc.RPC.DrainLog() {
+				n++
+				task := ""
+				for _, t := range e.tasks {
+					if r.VChannel == util.GetVChannel(replicateChan, hx.S(t, "id")) {
+						task = hx.S(t, "id")
+					}
+				}
+				oregs = append(oregs, hx.Event{"op": r.Op, "v": r.VChannel, "task": task, "has_seek": r.HasSeek, "seek_id": r.SeekID, "seek_ch": r.SeekCh,
+					"seek_t": srvpipe.ModelT(r.SeekTs), "epoch": e.inc.Epoch})
+				if r.Op == "register" && task != "" {
+					e.opcur[task] = 0 // no seek position: subscribe at "latest" = the task's creation = the start of the script
+					if r.HasSeek && r.SeekID != "init-op" {
+						if i := e.opIndex(r.SeekID); i >= 0 {
+							e.opcur[task] = i + 1 // MQ seek is exclusive of the seek id
+						}
+					}
+				}
+			}
+		}
 		if n == 0 {
 			break
 		}
 	}
+	if oregs == nil {
+		oregs = []hx.Event{}
+	}
+	ev["oregs"] = oregs
 	if logs == nil {
 		logs = []hx.Event{}
 	}
@@ -251,7 +351,7 @@ func (e *env) apiStates() []hx.Event {
 func run(p *hx.Plan) []hx.Event {
 	e := newEnv(p)
 	e.seed()
-	evs := []hx.Event{{"op": "seed", "log": []hx.Event{}, "regs": []hx.Event{}, "store": e.w.DumpStore(), "api": []hx.Event{}}}
+	evs := []hx.Event{{"op": "seed", "log": []hx.Event{}, "regs": []hx.Event{}, "oregs": []hx.Event{}, "store": e.w.DumpStore(), "api": []hx.Event{}}}
 	gates.mu.Lock()
 	gates.want, gates.packs, gates.held = map[string]string{}, map[*msgstream.MsgPack]string{}, map[string]chan struct{}{}
 	gates.mu.Unlock()
@@ -302,6 +402,24 @@ func run(p *hx.Plan) []hx.Event {
 			ev["res"], ev["id"], ev["data"], ev["idx"] = res, hx.S(pk, "id"), data, cur+1
 			if res == "ok" {
 				e.cursor[v] = cur + 1
+			}
+		case "readop": // the reader of task t (replicate channel) gets the next operation pack
+			task := hx.S(st, "task")
+			vch := util.GetVChannel(replicateChan, task)
+			ev["task"] = task
+			cur := e.opcur[task]
+			if e.inc == nil || !e.w.Alive(e.inc.Epoch) || !e.inc.RPC.Registered(vch) {
+				ev["res"], ev["id"], ev["idx"] = "unregistered", "", 0
+				break
+			}
+			if cur >= len(e.ops) {
+				ev["res"], ev["id"], ev["idx"] = "eof", "", 0
+				break
+			}
+			res := e.inc.RPC.Feed(vch, e.buildOp(vch, e.ops[cur]), 3*time.Second)
+			ev["res"], ev["id"], ev["idx"] = res, hx.S(e.ops[cur], "id"), cur+1
+			if res == "ok" {
+				e.opcur[task] = cur + 1
 			}
 		case "arm":
 			n := hx.I(st, "n")
